@@ -365,6 +365,14 @@ def prog_check(start, case, rec):
             if ct not in ("line", "quad"):
                 continue
             if o["zs"] is None:
+                if o["n"] % 2:
+                    # the same extrusion inside an existing (flat) extra dimension: a mesh embedded in the next higher space is expanded
+                    # with expand_dim=False - points and cells are those of the ordinary extrusion
+                    emb = fem.Mesh(np.pad(np.asarray(m.points), ((0, 0), (0, 1))), np.asarray(m.cells), m.cell_type)
+                    flat = emb.expand(n=o["n"], z=o["z"], expand_dim=False)
+                    ordinary = m.expand(n=o["n"], z=o["z"])
+                    rec.require("expand(expand_dim=False)-of-the-embedded-mesh=ordinary-extrusion", flat.cell_type == ordinary.cell_type and np.array_equal(np.asarray(flat.cells), np.asarray(ordinary.cells))
+                                and np.asarray(flat.points).shape == np.asarray(ordinary.points).shape and np.allclose(flat.points, ordinary.points, rtol=0, atol=0))
                 m = m.expand(n=o["n"], z=o["z"])
                 V *= o["z"]
                 nl = o["n"]
